@@ -1,4 +1,6 @@
 import KdVerif.Proofs.Composite
+import KdVerif.Proofs.PyIRCo
+import KdVerif.Gen.PyIRCo
 /-
   C20 — composite traces reflect exactly the records nested in their window.
 
@@ -526,5 +528,149 @@ example : (thInfoOf env0 (sampleWin 1)).isSome = true ∧ stackOf env0 (sampleWi
 example : thInfoOf env0 (sampleWin 0x3ff6) = none ∧ stackOf env0 (sampleWin 0x3ff6) = none := by decide
 /-- header-less: bit 3 set, data records present, no header -/
 example : stackOf env0 ((sampleWin 8).eraseIdx 3) = none := by decide
+
+/-! ## Translation tie: the composite handlers are the translated source
+
+  `tools/gen_pyir_co.py` translates the source text of perf.py (`handle_event`, `handle_thd_data` and the other three
+  handlers, their dataclasses' `__str__`), of `handle_mach_vmfault` (mach.py) and of `handle_timing_launch_executable` with
+  the two image handlers it calls (dyld.py) into the Python-subset IR of `Model/PyIRCo` on every run (`Gen/PyIRCo`).  The
+  theorems below say that the generated terms, run by the big-step interpreter, ARE the hand-model functions the theorems
+  above speak about — for every environment (code table, enum tables), every meaning of the nested `parse_event_list`,
+  all tables and every non-empty window of four-word records (`Words4`: what `from_kd_buf` produces; the hand model
+  totalises `values[k]` with `getD`, the interpreter raises IndexError like Python). -/
+
+/-- **The translated source is the program the refinement lemmas were proved for** (`Spec/PyIRCoExpected`, quoting the
+    Python): every handler body, every `__str__`, the `handlers` entries of the three modules — and the translator met
+    nothing outside the subset. -/
+theorem source_is_expected_ir :
+    Gen.PyIRCo.perf = PyIRCo.Expected.perf ∧ Gen.PyIRCo.mach = PyIRCo.Expected.mach ∧
+    Gen.PyIRCo.dyld = PyIRCo.Expected.dyld ∧ Gen.PyIRCo.notes = [] := by decide
+
+section ir
+open PyIRCo
+variable (env : Env) (nested : NestedFn) (t : Tabs) (e : Kevent) (rest : List Kevent)
+
+/-- **`handle_thd_data`, interpreted, is `hPerfThdData`**: `threads_pids[word 1] = word 0`, the text
+    `PERF_THD_Data, pid: …, tid: …, dq_addr: 0x…, runmode: …` with the `KperfTiState` names of `word 3 & 0xffff`. -/
+theorem handle_thd_data_ir_eq_model (h4 : e.values.length = 4) :
+    runHandler Gen.PyIRCo.perf env nested "PERF_THD_Data" t (e :: rest) = hPerfThdData env t (e :: rest) := by
+  rw [source_is_expected_ir.1]; exact run_thdData env nested t e rest h4
+
+/-- **`handle_event`, interpreted, is `hPerfEvent`**: thread info (through the interpreted `handle_thd_data`, tables
+    included) iff `SamplerAction.SAMPLER_TH_INFO in sample_what` and the window holds a `PERF_THD_Data` record; user stack
+    iff `SAMPLER_USTACK` and a `PERF_STK_UHdr` record — frames = the first `nframes` words of the chained
+    `handle_stk_udata(parser, [ev]).frames`, flags from the interpreted `handle_stk_uhdr`; `str()` through the translated
+    `PerfEvent.__str__`; the payload read off the returned object. -/
+theorem handle_event_ir_eq_model (hw : Words4 (e :: rest)) :
+    runHandler Gen.PyIRCo.perf env nested "PERF_Event" t (e :: rest) = hPerfEvent env t (e :: rest) := by
+  rw [source_is_expected_ir.1]; exact run_event env nested t e rest hw
+
+/-- `sampler_spec` (and with it `sampler_thinfo_iff` … `sampler_recordless`) speaks about the translated source: the
+    subject `handle env t "PERF_Event"` of those theorems is the interpreted generated handler. -/
+theorem sampler_subject_is_source (hw : Words4 (e :: rest)) :
+    handle env t "PERF_Event" (e :: rest) = runHandler Gen.PyIRCo.perf env nested "PERF_Event" t (e :: rest) := by
+  rw [handle_event_ir_eq_model env nested t e rest hw]
+  show handleWith _ env t "PERF_Event" (e :: rest) = _
+  rw [handleWith_perf]
+
+/-- **`handle_mach_vmfault`, interpreted, is `hMachVmfault`** — whatever `parser.parse_event_list` means (`nested`):
+    result = END word 2; for result 0 the fault type `DbgVmFaultType(END word 3)` (ValueError outside the enum, before
+    anything else happens), then `nested` on the records of `events[1:-1]` with `0x1320008 <= eventid <= 0x1320014` if
+    there are any; `None` from it leaves pid / protection out, otherwise they are `.pid` / `.caller_prot` of what it
+    returned (`pidProtOf`); an exception of `nested` or of the attribute reads is the handler's (an attribute error after
+    `nested` changed the tables: `.unmodelled`, as in the hand model); `str()` through the translated
+    `MachVmfault.__str__`. -/
+theorem handle_mach_vmfault_ir_eq_model (hw : Words4 (e :: rest)) :
+    runHandler Gen.PyIRCo.mach env nested "MACH_vmfault" t (e :: rest) = hMachVmfault nested env t (e :: rest) := by
+  rw [source_is_expected_ir.2.1]; exact run_vmfault env nested t e rest hw
+
+/-- `vmfault_spec`, `vmfault_ignores_outside`, `vmfault_other_handler` speak about the translated source: their subject
+    `handle env t "MACH_vmfault"` is the interpreted generated handler with `parse_event_list` as the nested call. -/
+theorem vmfault_subject_is_source (hw : Words4 (e :: rest)) :
+    handle env t "MACH_vmfault" (e :: rest) =
+      runHandler Gen.PyIRCo.mach env (parseEventList env) "MACH_vmfault" t (e :: rest) := by
+  rw [handle_mach_vmfault_ir_eq_model env _ t e rest hw, vmfault_nested]
+
+/-- **`handle_timing_launch_executable`, interpreted, is `hDyldLaunch`**: `uuid_map_a` = the interpreted
+    `handle_uuid_map_a(parser, [e])` of every record named `DYLD_uuid_map_a`, then `handle_uuid_shared_cache_a(parser, [e])`
+    of every record named `DYLD_uuid_shared_cache_a` (window order; `UUID(bytes=data[:16])` raises ValueError on a short
+    record, the first one in that order), `sorted(…, key=lambda x: x.load_addr)` (stable); main_executable_mh = START word 1;
+    `str()` through the translated `__str__`; tables untouched. -/
+theorem handle_timing_launch_executable_ir_eq_model (hw : Words4 (e :: rest)) :
+    runHandler Gen.PyIRCo.dyld env nested "DBG_DYLD_TIMING_LAUNCH_EXECUTABLE" t (e :: rest) = hDyldLaunch env t (e :: rest) := by
+  rw [source_is_expected_ir.2.2.1]; exact run_launch env nested t e rest hw
+
+/-- `launch_spec` speaks about the translated source. -/
+theorem launch_subject_is_source (hw : Words4 (e :: rest)) :
+    handle env t "DBG_DYLD_TIMING_LAUNCH_EXECUTABLE" (e :: rest) =
+      runHandler Gen.PyIRCo.dyld env nested "DBG_DYLD_TIMING_LAUNCH_EXECUTABLE" t (e :: rest) := by
+  rw [handle_timing_launch_executable_ir_eq_model env nested t e rest hw]
+  show handleWith _ env t "DBG_DYLD_TIMING_LAUNCH_EXECUTABLE" (e :: rest) = _
+  rw [handleWith_launch]
+
+/-- **The whole parser with the four composite handlers taken from the source** (`PERF_Event`, `PERF_THD_Data`,
+    `MACH_vmfault`, `DBG_DYLD_TIMING_LAUNCH_EXECUTABLE` interpreted from the generated programs, nested
+    `parse_event_list` calls included) is `Trace.run`: same traces, same exception, same final state — from every state
+    whose open windows hold four-word records, on every stream of four-word records. -/
+theorem run_ir_eq_model (s : PState) (es : List Kevent)
+    (hs : PInv (fun x => x.values.length = 4) s.pairing) (hw : Words4 es) :
+    runVia Gen.PyIRCo.progs env s es = Trace.run env s es := by
+  have h : Gen.PyIRCo.progs = PyIRCo.Expected.progs := by
+    show (⟨Gen.PyIRCo.perf, Gen.PyIRCo.mach, Gen.PyIRCo.dyld⟩ : Programs) = ⟨_, _, _⟩
+    rw [source_is_expected_ir.1, source_is_expected_ir.2.1, source_is_expected_ir.2.2.1]
+  rw [h]; exact runVia_eq env es s hs hw
+
+end ir
+
+/-- Enum members are compared by (class, name) in the interpreter (`SamplerAction.SAMPLER_TH_INFO in e.sample_what`): exact
+    because no two members of the reflected `SamplerAction` share a value (no aliases). -/
+theorem sampler_action_has_no_alias : (Gen.Enums.SamplerAction.members.map (·.value)).Nodup := by decide
+
+/-! #### non-vacuity: the generated handlers on concrete windows -/
+
+example : PyIRCo.Words4 launchWin := by decide
+example : PInv (fun x => x.values.length = 4) Pairing.PState.empty := PInv_empty _
+
+/-- the generated launch handler on `launchWin`: four images, ascending, equal addresses in "maps first" order -/
+example :
+    (PyIRCo.runHandler Gen.PyIRCo.dyld env0 (fun t _ => .ok (none, t)) "DBG_DYLD_TIMING_LAUNCH_EXECUTABLE" {}
+        launchWin).toOption.map (fun r => r.1.map fun o => (o.text.toOption, match o.extra with | .launch i => i | _ => [])) =
+      some (some (some "DBG_DYLD_TIMING_LAUNCH_EXECUTABLE, main_executable_mh: 0x10000",
+        [(0x1000, List.replicate 16 4), (0x2000, List.replicate 16 3), (0x2000, List.replicate 16 1),
+         (0x3000, List.replicate 16 2)])) := by decide +kernel
+
+example : PyIRCo.Words4 vmWin := by decide
+
+/-- the generated `handle_mach_vmfault` on `vmWin`, the nested records decoded by the model's `parse_event_list` (the
+    generated `RealFaultAddressInternal` decoder): pid 22, protection READ | WRITE of the FIRST in-range record -/
+example :
+    (PyIRCo.runHandler Gen.PyIRCo.mach env0 (parseEventList env0) "MACH_vmfault" {} vmWin).toOption.map
+        (fun r => r.1.map (·.text.toOption)) =
+      some (some (some ("MachVmfault, addr: 0x7000, is_kernel: True, result: 0, type: DBG_PAGEIN_FAULT, " ++
+        "vm_prot: VM_PROT_READ | VM_PROT_WRITE, pid: 22"))) := by decide +kernel
+
+/-- … and on `vmWinPurgeable` (first in-range record of a kind without handler): pid / protection omitted -/
+example :
+    (PyIRCo.runHandler Gen.PyIRCo.mach env0 (parseEventList env0) "MACH_vmfault" {} vmWinPurgeable).toOption.map
+        (fun r => r.1.map (·.text.toOption)) =
+      some (some (some "MachVmfault, addr: 0x7000, is_kernel: False, result: 0, type: DBG_ZERO_FILL_FAULT")) := by
+  decide +kernel
+
+example : PyIRCo.Words4 (sampleWin 9) := by decide
+
+/-- the generated `handle_event` on the sample window with flags TH_INFO | USTACK: thread info of the FIRST `PERF_THD_Data`
+    record, six frames, `threads_pids[100] = 10` -/
+example :
+    (PyIRCo.runHandler Gen.PyIRCo.perf env0 (fun t _ => .ok (none, t)) "PERF_Event" {} (sampleWin 9)).toOption.map
+        (fun r => (r.1.map (·.text.toOption), r.2.threadsPids)) =
+      some (some (some "PERF_Event, sample_what: SAMPLER_TH_INFO | SAMPLER_USTACK, actionid: 1, frames count: 6"),
+        [(100, 10)]) := by decide +kernel
+
+/-- the generated `handle_thd_data` -/
+example :
+    (PyIRCo.runHandler Gen.PyIRCo.perf env0 (fun t _ => .ok (none, t)) "PERF_THD_Data" {}
+        [ev 2 0x25010000 0 [10, 100, 0x20, 5]]).toOption.map (fun r => (r.1.map (·.text.toOption), r.2.threadsPids)) =
+      some (some (some "PERF_THD_Data, pid: 10, tid: 100, dq_addr: 0x20, runmode: KPERF_TI_RUNNING | KPERF_TI_WAIT"),
+        [(100, 10)]) := by decide +kernel
 
 end KdVerif.C20
